@@ -9,7 +9,9 @@ HARNESSES = {
         "proto": ("internal/proto", "proto"),
         "turn": (".", "turn"),
         "server": ("internal/server", "server"),
+        "client": ("internal/client", "client"),
     },
+    "H10": {"pkg": "./internal/client/", "run": "^TestVerifH10$", "streams": ["h10"], "toolchain": None, "timeout": (300, 600)},
     "H2": {"pkg": ".", "run": "^TestVerifH2$", "streams": ["h2"], "toolchain": "go1.26.0", "timeout": (900, 3000)},
     "H9": {"pkg": ".", "run": "^TestVerifH9$", "streams": ["h9"], "toolchain": "go1.26.0", "timeout": (300, 600)},
     "H8": {"pkg": ".", "run": "^TestVerifH8$", "streams": ["h8"], "toolchain": "go1.26.0", "timeout": (300, 900)},
@@ -46,17 +48,20 @@ PROPS = {
         "assumptions": ["XOR address decoding of wrong-sized values lives in the dependency pion/stun (finding F12)"],
     },
     "C10": {
-        "modules": ["TurnModel.Props.C10"],
-        "harnesses": ["H1"],
-        "view": ["consume", "frames", "framesb"],
-        "alarms": ["framer-roundtrip", "consume-no-progress", "framer-spins"],
+        "modules": ["TurnModel.Props.C10", "TurnModel.Props.C10Bind"],
+        "harnesses": ["H1", "H10"],
+        "view": ["consume", "frames", "framesb", "bindconn"],
+        "alarms": ["framer-roundtrip", "consume-no-progress", "framer-spins", "bindconn-segmentation", "harness-died"],
         "rule": "H1 drives consumeSingleTURNFrame on all 2^16 length fields x {ChannelData, STUN, garbage} (short buffers) and "
                 "exact/long/one-short buffers for stratified lengths, and the real STUNConn over a scripted net.Conn on frame "
                 "sequences x segmentations (whole, byte-at-a-time, every single cut, every pair of cuts for short streams, random "
-                "cuts, truncated, followed by garbage); the Lean framer replays every line; distinct = (op kind, outcome) pairs",
-        "trusted_base": H1_TB,
+                "cuts, truncated, followed by garbage); H10 drives the real TCPAllocation.BindConnection over a scripted data connection: success / success with "
+                "attributes / error replies, alone or followed by application data, under every single cut, byte-at-a-time and random double cuts, plus truncated and "
+                "non-STUN replies - result class and the bytes left for the application are compared with Model/BindConn.lean and with the unsplit run; "
+                "the Lean framer replays every line; distinct = (op kind, outcome) pairs",
+        "trusted_base": H1_TB + ["hand-written model TurnModel/Model/BindConn.lean tied to internal/client/tcp_alloc.go (BindConnection) by harness H10"],
         "assumptions": ["net.Conn.Read returns >0 bytes or an error (net.Conn contract)",
-                        "client-side ConnectionBind reply parsing is covered by harness H5"],
+                        "stun.Message.Decode of the complete reply is pion/stun's (the model hands it the exact bytes)"],
     },
     "C09": {
         "modules": ["TurnModel.Props.C09"],
@@ -236,8 +241,9 @@ MANIFEST_TEXT = {
     },
     "C10": {
         "text": "framer_roundtrip: for all frame sequences and all segmentations the model of STUNConn.ReadFrom returns exactly the frames, in order, one per call, "
-                "promptly; read_consumes and garbage_is_error for every input. Tied to the real framer by replaying every consume/frames operation of H1 "
-                "(all 2^16 length fields, every single/double cut of short streams).",
+                "promptly; read_consumes and garbage_is_error for every input; bindconn_split_independent / bindconn_exact: the client's reading of the ConnectionBind reply "
+                "(exactly the header, exactly the announced body, the rest left for the application) depends only on the concatenation of the reads. Tied to the real framer by "
+                "replaying every consume/frames operation of H1 (all 2^16 length fields, every single/double cut of short streams) and to TCPAllocation.BindConnection by H10.",
         "design_ref": "DESIGN.md §6 C10", "technique": "Lean 4 induction over frame lists and chunk lists + differential correspondence with STUNConn",
         "note": PROOF_NOTE + "net.Conn contract assumed for Read.",
     },
